@@ -485,3 +485,22 @@ fn test_ll_default() {
     assert!(table.decode[59].num_bits == 5);
     assert!(table.decode[59].base_line == 32);
 }
+
+#[cfg(ruzstd_verif)]
+pub mod verif {
+    pub fn lookup_ll_code(code: u8) -> (u32, u8) {
+        super::lookup_ll_code(code)
+    }
+    pub fn lookup_ml_code(code: u8) -> (u32, u8) {
+        super::lookup_ml_code(code)
+    }
+    pub fn ll_default_distribution() -> &'static [i32] {
+        &super::LITERALS_LENGTH_DEFAULT_DISTRIBUTION[..]
+    }
+    pub fn ml_default_distribution() -> &'static [i32] {
+        &super::MATCH_LENGTH_DEFAULT_DISTRIBUTION[..]
+    }
+    pub fn of_default_distribution() -> &'static [i32] {
+        &super::OFFSET_DEFAULT_DISTRIBUTION[..]
+    }
+}
